@@ -6,7 +6,7 @@ from .c01 import fix_disagreements
 MODULES = ['DsdVerif.Props.C11']
 GEN_FILES = []
 THEOREM_NAMES = ['sortBy_perm', 'sortBy_sorted', 'sortBy_perm_invariant', 'macro_perm_invariant', 'macro_canon_spec', 'macro_injective', 'reaction_perm_invariant', 'reaction_lists_sorted', 'reaction_canon_iff']
-THEOREMS = ['Dsd.C11.' + t for t in THEOREM_NAMES]
+THEOREMS = ['Dsd.C11.' + t for t in THEOREM_NAMES] + ['Dsd.C11.macroRequestFull_eq', 'Dsd.C11.reactionRequestFull_eq']
 ASSUMPTIONS = [
     'MacrostateS.identifiers / ReactionS.identifiers are hand-modelled (Model/Objects.lean: macroRequest, reactionRequest; sorted() is a '
     'stable insertion sort by canonical form); members are (name, canonical form) of live singleton complexes or macrostates',
@@ -18,7 +18,8 @@ MANIFEST = {
             'member\'s), macro_injective and reaction_canon_iff (equal forms exactly for equal member multisets / reactant multiset, '
             'product multiset and type), reaction_lists_sorted (canonical listing, arity); for any number of members. Tied to '
             'MacrostateS / ReactionS by correspondence over all subsets x permutations and reactant / product multisets x types; the '
-            'same clauses are checked directly on the real objects.',
+            'same clauses are checked directly on the real objects. ' 
+            'Model/SetsFull.lean follows MacrostateS / ReactionS identifiers and __init__ statement by statement (sorted by canonical form, default names, representative look-up, Python truthiness in Singleton.__call__); macroRequestFull_eq / reactionRequestFull_eq prove this is exactly the net-effect model for non-empty names and homogeneous member lists (kernel-checked differences - a side mixing complexes and macrostates raises AssertionError in the code - are kept as findings).',
     'note': 'Members with equal canonical form are the same singleton object (hypothesis Singletons, discharged by C01); trusted base as in DESIGN.md 3.',
     'technique': 'Lean 4 proofs: sorted permutations under a strict total order are equal; correspondence check on histories',
 }
